@@ -3,6 +3,7 @@ CONSTANTS
   Impl = "ref"
   Echo = TRUE
   MaxLen = 8
+  Fixes = {}
   MaxIn = 4
   MaxEng = 3
 SPECIFICATION Spec
